@@ -342,6 +342,14 @@ fn q_post(c: &mut Commands, sh: &Arc<Shared>, cmd: CmdId) {
     });
 }
 
+fn q_tables(c: &mut Commands, sh: &Arc<Shared>, cmd: CmdId, phase: u8) {
+    let sh = sh.clone();
+    c.queue(move |w: &mut World| {
+        let s = take_snap(w);
+        applied(&sh, cmd, Note::Tables { phase, tables: s.tables, entity_entries: s.entity_reactor_entries });
+    });
+}
+
 fn new_cmd(sh: &Arc<Shared>) -> CmdId {
     let mut st = lk(&sh.st);
     let id = st.next_cmd;
@@ -691,7 +699,9 @@ pub fn exec_act(sh: &Arc<Shared>, run: RunId, seq: u32, a: &Act, c: &mut Command
             };
             issued(sh, run, seq, cmd, RAct::Revoke { token });
             q_pre(c, sh, cmd);
+            q_tables(c, sh, cmd, 0);
             c.react().revoke(tok);
+            q_tables(c, sh, cmd, 1);
             q_post(c, sh, cmd);
         }
         Act::DespawnSys(x) => {
@@ -772,6 +782,7 @@ pub fn exec_act(sh: &Arc<Shared>, run: RunId, seq: u32, a: &Act, c: &mut Command
             let b = DynBundle::new(&items);
             issued(sh, run, seq, cmd, RAct::WrRemove { wr: n, inst, bundle: b.resolved() });
             q_pre(c, sh, cmd);
+            q_tables(c, sh, cmd, 0);
             match wr {
                 Some(wr) => {
                     if n == 0 {
@@ -782,6 +793,7 @@ pub fn exec_act(sh: &Arc<Shared>, run: RunId, seq: u32, a: &Act, c: &mut Command
                 }
                 None => c.queue(move |w: &mut World| do_wr_remove(w, n, b)),
             }
+            q_tables(c, sh, cmd, 1);
             q_post(c, sh, cmd);
         }
         Act::WrRun(n) => {
@@ -842,6 +854,7 @@ pub fn exec_act(sh: &Arc<Shared>, run: RunId, seq: u32, a: &Act, c: &mut Command
             let b = DynBundle::new(&items);
             issued(sh, run, seq, cmd, RAct::EwRemove { ew: n, inst, ents, bundle: b.resolved() });
             q_pre(c, sh, cmd);
+            q_tables(c, sh, cmd, 0);
             match wr {
                 Some(wr) => {
                     if n == 0 {
@@ -852,6 +865,7 @@ pub fn exec_act(sh: &Arc<Shared>, run: RunId, seq: u32, a: &Act, c: &mut Command
                 }
                 None => c.queue(move |w: &mut World| do_ew_remove(w, n, b)),
             }
+            q_tables(c, sh, cmd, 1);
             q_post(c, sh, cmd);
         }
         Act::Poll => {
